@@ -435,4 +435,89 @@ Section Twin.
       split; [eapply frame_trans; [exact F|constructor; [exact W1|rewrite C1; apply same_static_refl|exact R1|exact T1]]|].
       split; [exact G'|]. split; [exact Hia|]. split; [exact Hib|]. rewrite C1, N1. split; [exact HA|split; [exact HB|exact Hn]].
   Qed.
+
+  (** ** walks in twin states *)
+  Lemma twin_blocks_len : forall s, frame s0 s -> length (blocks _ _ s) = length (blocks _ _ s0).
+  Proof.
+    intros s F. pose proof (fr_static _ _ F) as Sst.
+    (* same ids list length: use the cores *)
+    assert (H : forall j, sfind (cores s) j = sfind l0 j) by exact Sst.
+    destruct F as [W _ _ _]. destruct W as (ND & _). destruct W0 as (ND0 & _).
+    assert (I1 : incl (map e_id (cores s)) (map e_id l0)).
+    { intros j Hj. apply in_map_iff in Hj. destruct Hj as (e & <- & He). pose proof (cfind_in _ _ ND He) as Fe.
+      specialize (H (e_id e)). unfold sfind in H. rewrite Fe in H. destruct (cfind l0 (e_id e)) as [e'|] eqn:E'; [|discriminate].
+      apply cfind_some in E'. destruct E' as [Hid Hin]. rewrite <- Hid. apply in_map. exact Hin. }
+    assert (I2 : incl (map e_id l0) (map e_id (cores s))).
+    { intros j Hj. apply in_map_iff in Hj. destruct Hj as (e & <- & He). pose proof (cfind_in _ _ ND0 He) as Fe.
+      specialize (H (e_id e)). unfold sfind in H. rewrite Fe in H. destruct (cfind (cores s) (e_id e)) as [e'|] eqn:E'; [|discriminate].
+      apply cfind_some in E'. destruct E' as [Hid Hin]. rewrite <- Hid. apply in_map. exact Hin. }
+    pose proof (NoDup_incl_length ND I1) as L1. pose proof (NoDup_incl_length ND0 I2) as L2.
+    rewrite !map_length in L1, L2. unfold cores in L1, L2. rewrite !map_length in L1, L2. lia.
+  Qed.
+
+  (* unapplyWhile on the candidate part: stops at the fork or where the predicate says so; never aborts *)
+  Lemma twin_uwB : forall n s ia ib pred fuel, twin s ia ib -> (kb - ib <= n)%nat -> (n <= fuel)%nat ->
+      exists s' j, unapplyWhile pstate ccmd cunexec fuel s (up l0 ib c) fork pred = Ok (s', up l0 j c) /\
+                   twin s' ia j /\ (ib <= j <= kb)%nat /\ ((forall bb, pred bb = true) -> j = kb).
+  Proof.
+    induction n as [|n IH]; intros s ia ib pred fuel T Hn Hf.
+    - pose proof T as (_ & _ & _ & Hib & _). assert (ib = kb) by lia. subst ib.
+      exists s, kb. rewrite <- Hf2. split; [destruct fuel; cbn; rewrite N.eqb_refl; rewrite Hf2; reflexivity|]. split; [exact T|]. split; [lia|reflexivity].
+    - pose proof T as (F & G & Hia & Hib & HA & HB & Hnn).
+      destruct (Nat.eq_dec ib kb) as [->|Hne].
+      { exists s, kb. rewrite <- Hf2. split; [destruct fuel; cbn; rewrite N.eqb_refl; rewrite Hf2; reflexivity|]. split; [exact T|]. split; [lia|reflexivity]. }
+      destruct fuel as [|f]; [lia|]. cbn [unapplyWhile].
+      assert (Hneq : N.eqb (up l0 ib c) fork = false).
+      { apply N.eqb_neq. rewrite Hf2. intro Heq. apply c_inj in Heq; lia. }
+      rewrite Hneq.
+      destruct (twin_find s (up l0 ib c) F (up_c_found ib ltac:(lia))) as (bc & Fc & Pc & Hc').
+      destruct (twin_find s fork F) as (bt & Ft & _ & Ht'). { rewrite Hf2. apply up_c_found. lia. }
+      rewrite Fc, Ft.
+      assert (Hlt : Z.leb (b_h ccmd bc) (b_h ccmd bt) = false).
+      { apply Z.leb_gt. rewrite Hc', Ht', hgt_fork_c, hgt_c by lia. lia. }
+      rewrite Hlt.
+      destruct (pred bc) eqn:Hp; cbn [negb].
+      + destruct (twin_unapplyB s ia ib T ltac:(lia)) as (s1 & E1 & T1).
+        change (unapplyBlock pstate ccmd cunexec s (up l0 ib c)) with (c_unapplyBlock s (up l0 ib c)). rewrite E1. cbn [bind].
+        rewrite Pc, parent_up_c.
+        destruct (IH s1 ia (S ib) pred f T1 ltac:(lia) ltac:(lia)) as (s' & j & E' & T' & Hj & Hall).
+        exists s', j. split; [exact E'|]. split; [exact T'|]. split; [lia|exact Hall].
+      + exists s, ib. split; [reflexivity|]. split; [exact T|]. split; [lia|]. intros Hall. rewrite Hall in Hp. discriminate.
+  Qed.
+
+  Lemma twin_unapplyB_range : forall s ia ib, twin s ia ib ->
+      exists s', unapply pstate ccmd cunexec s (up l0 ib c) fork = Ok s' /\ twin s' ia kb.
+  Proof.
+    intros s ia ib T. pose proof T as (F & _).
+    destruct (twin_uwB (kb - ib) s ia ib (fun _ => true) (fuel_of pstate ccmd s) T (Nat.le_refl _)) as (s' & j & E & T' & _ & Hall).
+    { unfold fuel_of. rewrite (twin_blocks_len s F). pose proof (dep_bound s0 c ec W0 K0 Hc). lia. }
+    specialize (Hall (fun _ => eq_refl)). subst j. rewrite <- Hf2 in E.
+    exists s'. unfold unapply. rewrite E. cbn. rewrite N.eqb_refl. split; [reflexivity|exact T'].
+  Qed.
+
+  Lemma twin_unapplyA_range : forall n s ia ib fuel, twin s ia ib -> (ka - ia <= n)%nat -> (n <= fuel)%nat ->
+      exists s', unapplyWhile pstate ccmd cunexec fuel s (up l0 ia t) fork (fun _ => true) = Ok (s', fork) /\ twin s' ka ib.
+  Proof.
+    induction n as [|n IH]; intros s ia ib fuel T Hn Hf.
+    - pose proof T as (_ & _ & Hia & _). assert (ia = ka) by lia. subst ia.
+      exists s. rewrite <- Hf1. split; [destruct fuel; cbn; rewrite N.eqb_refl; reflexivity|exact T].
+    - pose proof T as (F & G & Hia & Hib & HA & HB & Hnn).
+      destruct (Nat.eq_dec ia ka) as [->|Hne].
+      { exists s. rewrite <- Hf1. split; [destruct fuel; cbn; rewrite N.eqb_refl; reflexivity|exact T]. }
+      destruct fuel as [|f]; [lia|]. cbn [unapplyWhile].
+      assert (Hneq : N.eqb (up l0 ia t) fork = false).
+      { apply N.eqb_neq. intro Heq. pose proof hgt_fork_t as Hh. rewrite <- Heq, hgt_t in Hh by lia. lia. }
+      rewrite Hneq.
+      destruct (twin_find s (up l0 ia t) F (up_t_found ia ltac:(lia))) as (bc & Fc & Pc & Hc').
+      destruct (twin_find s fork F) as (bt & Ft & _ & Ht'). { rewrite Hf1. apply up_t_found. lia. }
+      rewrite Fc, Ft.
+      assert (Hlt : Z.leb (b_h ccmd bc) (b_h ccmd bt) = false).
+      { apply Z.leb_gt. rewrite Hc', Ht', hgt_fork_t, hgt_t by lia. lia. }
+      rewrite Hlt. cbn [negb].
+      destruct (twin_unapplyA s ia ib T ltac:(lia)) as (s1 & E1 & T1).
+      change (unapplyBlock pstate ccmd cunexec s (up l0 ia t)) with (c_unapplyBlock s (up l0 ia t)). rewrite E1. cbn [bind].
+      rewrite Pc, parent_up_t.
+      destruct (IH s1 (S ia) ib f T1 ltac:(lia) ltac:(lia)) as (s' & E' & T').
+      exists s'. split; [exact E'|exact T'].
+  Qed.
 End Twin.
